@@ -964,6 +964,62 @@ def obligations_call_reentrant(case):
     return keep
 
 
+def obligations_reduce(case):
+    """decorator.__reduce__() followed by the reconstruction  cls(*args)  yields a decorator with an equal configuration
+    (same maxsize, the same cache object, keymap, ignore, tol, deep, purge) -- klepto's part of the pickling round trip  [C20]"""
+    I = case.I
+    obs = []
+    fn = '%s.__reduce__' % case.qual
+    dobj = case.st0.get(case.decorator)
+    state0 = dobj.attrs.get('__state__')
+    items0 = dict(case.st0.get(state0).items) if isinstance(state0, Ref) else None
+
+    def add(clause, ok, why=''):
+        obs.append(Obligation('%s/%s' % (fn, clause), [], z3.BoolVal(bool(ok)), prop='C20', func=fn, path=why[:200],
+                              info={'case': case.qual, 'op': 'reduce'}))
+    try:
+        I.cur_func = fn
+        res = I.call_method(case.st0.fork(), case.decorator, '__reduce__', CallArgs([]))
+        if len(res) != 1 or isinstance(res[0][1], Exc) or not isinstance(res[0][1], TupleV) or len(res[0][1].items) < 2:
+            add('returns_class_and_arguments', False, repr([r for _, r in res]))
+            return obs
+        s1, r = res[0]
+        rcls, rargs = r.items[0], r.items[1]
+        add('returns_class_and_arguments', isinstance(rcls, ClassV) and rcls is case.cls and isinstance(rargs, TupleV))
+        if not (isinstance(rcls, ClassV) and isinstance(rargs, TupleV)):
+            return obs
+        res2 = I.call(s1, rcls, CallArgs(list(rargs.items)))
+        if len(res2) != 1 or isinstance(res2[0][1], Exc):
+            add('reconstruction_succeeds', False, repr([x for _, x in res2]))
+            return obs
+        s2, obj = res2[0]
+        o = s2.get(obj) if isinstance(obj, Ref) else None
+        add('reconstruction_succeeds', o is not None and getattr(o, 'cls', None) is case.cls)
+        st1 = o.attrs.get('__state__') if o is not None and hasattr(o, 'attrs') else None
+        items1 = dict(s2.get(st1).items) if isinstance(st1, Ref) and s2.get(st1).kind == 'concdict' else None
+        if items0 is None or items1 is None:
+            add('configuration_recorded', False)
+            return obs
+        for k in sorted(items0):
+            if k == 'roundargs':
+                continue          # a fresh rounded_args function of the same kind (checked by rounding.(tol))
+            a, b = items0[k], items1.get(k)
+            same = False
+            if type(a) is type(b):
+                if isinstance(a, (IntV, BoolV, Opaque)):
+                    same = z3.is_true(z3.simplify(a.term == b.term))
+                elif isinstance(a, NoneV):
+                    same = True
+                else:
+                    same = (a == b) or (a is b)
+            add('equal_configuration[%s]' % k, same, '%r vs %r' % (a, b))
+        add('same_rounding_kind', getattr(case, 'round_kind', None) in ('simple', 'deep'))
+    except Unsupported as e:
+        obs.append(Obligation(fn + '/supported', [], z3.BoolVal(False), prop='C20', func=fn, path=str(e)[:200],
+                              info={'case': case.qual, 'op': 'reduce', 'unsupported': str(e)}))
+    return obs
+
+
 def obligations_new(case):
     """class instantiation, however maxsize is passed (positionally or by keyword): 0 -> the object decorates as no_cache,
     None -> as inf_cache, otherwise the configured bound is recorded; the object is always initialised  [C05]"""
